@@ -153,6 +153,13 @@ func zzIngress(name string, created int64, prefix string) *networking.Ingress {
 	if nd.Param("ACME", 1) == 1 && nd.Bool(prefix+".acme") {
 		ing.Annotations = map[string]string{"ingress.kubernetes.io/cert-signer": "acme"}
 	}
+	if nd.Param("WEIGHTANN", 0) == 1 && nd.Bool(prefix+".weight") {
+		// one of the settings a backend takes from whoever creates it first
+		if ing.Annotations == nil {
+			ing.Annotations = map[string]string{}
+		}
+		ing.Annotations["ingress.kubernetes.io/initial-weight"] = "50"
+	}
 	if nd.Bool(prefix + ".rule") {
 		host := zzHosts[nd.Choice(prefix+".host", len(zzHosts))]
 		svc := zzSvcs[nd.Choice(prefix+".svc", len(zzSvcs))]
@@ -164,7 +171,7 @@ func zzIngress(name string, created int64, prefix string) *networking.Ingress {
 			}},
 		}}}
 	}
-	if nd.Bool(prefix + ".tls") {
+	if nd.Param("TLS", 1) == 1 && nd.Bool(prefix+".tls") {
 		ing.Spec.TLS = []networking.IngressTLS{{
 			Hosts:      []string{zzHosts[nd.Choice(prefix+".tlshost", len(zzHosts))]},
 			SecretName: zzSecrets[nd.Choice(prefix+".secret", len(zzSecrets))],
@@ -203,6 +210,7 @@ func (s *zzSystem) converter(changed *convtypes.ChangedObjects) *converter {
 		},
 		DefaultCrtSecret: "system/default",
 		AnnotationPrefix: []string{"ingress.kubernetes.io"},
+		DefaultBackend:   []string{"", "default/s1"}[nd.Param("DEFBACK", 0)],
 	}, s.hc, changed).(*converter)
 	c.updater = zzUpdater{}
 	return c
